@@ -129,6 +129,57 @@ def sc_mixed(rng, cid, store):
     return dict(id=cid, conf=conf, steps=steps, scenario="mixed-vs-ticker")
 
 
+def sc_self_mount(rng, cid, store):
+    """mounts that name the target repository itself as the source, of digests it does not hold, from several clients while the
+    collection ticker runs at microsecond periods: the handler asks for the same repository twice"""
+    conf = mkconf(store=store, withsubj=False, freq_us=rng.choice([20, 50, 200, 1000]))
+    steps = base_steps(("a",))
+    threads = []
+    n = 25 if store == "dir" else 60
+    for t in range(3):
+        th = []
+        for j in range(n):
+            r = rng.random()
+            if r < 0.7:
+                th.append(upload_post("a", mount=dg("sha256", b"absent-%d-%d-%d" % (cid, t, j)), frm="a"))
+            elif r < 0.8:
+                th.append(upload_post("a", mount=dg("sha256", b"layer-shared"), frm="a"))
+            elif r < 0.9:
+                th.append(tag_list("a"))
+            else:
+                th.append(upload_post("a", mount=dg("sha256", b"absent-%d" % j), frm="other/repo"))
+        threads.append(th)
+    steps.append(dict(kind="par", impl=dict(op="par", par=[[s["impl"] for s in th] for th in threads]), model="(skip)"))
+    steps += [tag_list("a"), special("close")]
+    return dict(id=cid, conf=conf, steps=steps, scenario="self-mount-vs-ticker")
+
+
+def sc_unknown_session(rng, cid, store):
+    """requests for upload sessions that never existed, were cancelled or have expired, then a collection of the repository,
+    further requests and Close"""
+    conf = mkconf(store=store, withsubj=False, uploadmax=rng.choice([0, 2]), grace_ms=rng.choice([0, 50]))
+    steps = base_steps(("a",))
+    steps.append(upload_post("a"))
+    k = len(steps) - 1
+    sid = "$SID%d$" % k
+    how = rng.choice(["never", "cancelled", "expired"])
+    if how == "cancelled":
+        steps.append(upload_delete("a", sid))
+    elif how == "expired":
+        steps += [dict(kind="uploads", impl=dict(op="uploads", repo="a", kind="age", secs=100000.0), model="(skip)"),
+                  dict(kind="uploads", impl=dict(op="uploads", repo="a", kind="prune_age"), model="(skip)")]
+    else:
+        sid = "never-opened-session"
+    reqs = [upload_patch("a", sid, None, state_token(0), b"data"), upload_put("a", sid, None, dg("sha256", b"data"), state_token(0), b"data"),
+            upload_get("a", sid), upload_delete("a", sid)]
+    first = reqs.pop(rng.randrange(len(reqs))) if cid % 2 else reqs.pop(0)
+    rng.shuffle(reqs)
+    steps += [first] + reqs[:rng.randrange(0, 4)]
+    steps += [upload_post("a", digest=dg("sha256", b"more"), body=b"more"), dict(kind="gc", impl=dict(op="gc", repo="a"), model="(skip)"),
+              timed(tag_list("a"), 3000), dict(kind="gc", impl=dict(op="gc", repo="a"), model="(skip)"), special("close")]
+    return dict(id=cid, conf=conf, steps=steps, scenario="unknown-session-then-collection")
+
+
 def sc_gc_cycle(rng, cid, store):
     """a hand-written index.json whose entries are listed under media types that are not manifest types and name each other as
     referrers subject: the collection (explicit, and the one Close runs) must still come to an end"""
@@ -168,7 +219,7 @@ def run(ctx):
     cases = []
     for _ in range(reps):
         for store in ("mem", "dir"):
-            for f, n in ((sc_waiter, 4), (sc_close_ticker, 3), (sc_uploads, 4), (sc_mixed, 5), (sc_gc_cycle, 2)):
+            for f, n in ((sc_waiter, 4), (sc_close_ticker, 3), (sc_uploads, 4), (sc_mixed, 5), (sc_gc_cycle, 2), (sc_self_mount, 2), (sc_unknown_session, 4)):
                 for _ in range(n):
                     if f is sc_gc_cycle and store != "dir":
                         continue
@@ -181,7 +232,7 @@ def run(ctx):
         cases = [c] * 1
     os.environ["VERIF_STEP_TIMEOUT_MS"] = "6000"
     try:
-        iouts = run_api(ctx, binp, cases, name="stall", workers=8)
+        iouts = run_api_isolated(ctx, binp, cases, name="stall", procs=8)
     finally:
         os.environ.pop("VERIF_STEP_TIMEOUT_MS", None)
     nstall = 0
@@ -211,7 +262,10 @@ def run(ctx):
             where, text = hangs[0]
             sig = "C12:stall-%s" % c["scenario"]
             alltext = "\n".join(t for _, t in hangs)
-            if re.search(r"prune(Count|Age)", alltext) and "RepoGet.func" in alltext and re.search(r"dirRepoUpload\)\.(Close|Cancel)", alltext) and "Cache[...]).Delete" in alltext:
+            blocks = re.split(r"\n\s*\n", alltext)
+            side_a = any(re.search(r"prune(Count|Age)", b) and "RepoGet.func" in b for b in blocks)          # prune holds cache.mu, waits for the session
+            side_b = any(re.search(r"dirRepoUpload\)\.(Close|Cancel)", b) and "Cache[...]).Delete" in b for b in blocks)   # session held, waits for cache.mu
+            if side_a and side_b:
                 # eviction / expiry of a session (cache.mu, then the session's mutex through PrunePreFn) against the completion or
                 # cancellation of that session (session mutex, then cache.mu): finding C12-F45
                 sig = "C12:evict-vs-complete-deadlock"
